@@ -18,14 +18,22 @@ mkdir -p /verif/seeded/$id
 cp /tmp/seed-$id.diff /verif/seeded/$id/patch.diff
 cp "$wt"/tests/$demo.rs /verif/seeded/$id/demo.rs 2>/dev/null
 cp "$wt"/seed/meta.json /verif/seeded/$id/meta.agent.json 2>/dev/null
-cd /repo && git status --porcelain | grep -v '^??' | grep . && { echo "repo not clean"; exit 2; }
 rm -rf /verif/build/evidence.keep; cp -r /verif/evidence /verif/build/evidence.keep
-git -C /repo apply /verif/seeded/$id/patch.diff || { echo "patch does not apply to /repo"; exit 2; }
+if [ -n "${SEED_PRIVATE:-}" ]; then
+  # /repo is being read by a long background check: run against a private copy of /repo with the change applied instead
+  priv=/tmp/seedrepo-$id; rm -rf $priv; mkdir -p $priv
+  rsync -a --exclude target --exclude .git /repo/ $priv/
+  ( cd $priv && patch -p1 -s < /verif/seeded/$id/patch.diff ) || { echo "patch does not apply to the copy of /repo"; exit 2; }
+  export VERIF_REPO=$priv
+else
+  cd /repo && git status --porcelain | grep -v '^??' | grep . && { echo "repo not clean"; exit 2; }
+  git -C /repo apply /verif/seeded/$id/patch.diff || { echo "patch does not apply to /repo"; exit 2; }
+fi
 for p in "$@"; do
   ( cd /verif && timeout 1800 python3 tools/check.py "$p" 2>&1 | grep -E "VIOLATION|^C[0-9]+ " | cut -c1-200 | tail -3 )
   [ -f /verif/evidence/replay/$p-1.json ] && python3 -c "
 import json; r=json.load(open('/verif/evidence/replay/$p-1.json')); print('   first replay:', r.get('what','')[:300])"
 done
-git -C /repo checkout -- .
+if [ -n "${SEED_PRIVATE:-}" ]; then rm -rf /tmp/seedrepo-$id /verif/build/harness-alt; else git -C /repo checkout -- .; fi
 # evidence written while a seeded change was applied is not evidence about the tree: put the clean files back
 rm -rf /verif/evidence; mv /verif/build/evidence.keep /verif/evidence
